@@ -130,6 +130,22 @@ void w08_use_lsc(int on);
 int w08_add_process(void);
 int w08_proc(int what);
 static void instance_body(void);
+int w08_builder_process(int what);
+/* a template named in the system line counts as instantiated (FeatureChecker and the other analyses look at used templates only),
+   whether or not the process still has unbound parameters */
+void h_c08_process_marks_template(void)
+{
+    int np, nfree, nargs, name, pre;
+    __CPROVER_assume(np >= 0 && np <= 2 && nfree >= 0 && nfree <= 1 && name >= 70 && name <= 72 && nargs >= 0 && nargs <= np && pre >= 0 && pre < 4);
+    w08_use_lsc(0);
+    w08_init(0, 0, np, 0);
+    w08_add_instance(name, nfree, nargs, 0, pre, 0, 0);
+    w08_builder_process(0);
+    __CPROVER_assert(w08_builder_process(1) == 1, "c08.process.the-template-of-a-process-named-in-the-system-line-is-marked-as-instantiated");
+    __CPROVER_assert(w08_builder_process(2) == 1, "c08.process.the-process-is-added-to-the-document");
+    if (nfree == 1) __CPROVER_assert(0, "reach:partial-instance");
+    REACH;
+}
 void h_c08_instance(void) { w08_use_lsc(0); instance_body(); REACH; }
 void h_c08_lsc_instance(void) { w08_use_lsc(1); instance_body(); REACH; }
 /* a process is a COPY of the instance under a NEW symbol of the same name whose user object is the process itself; its type is
